@@ -16,4 +16,5 @@ INVARIANT C34_DictInnermost
 INVARIANT C34_DictInnerFirst
 INVARIANT C34_DictByStart
 INVARIANT C34_Functions
+CONSTRAINT EmitInit
 CHECK_DEADLOCK FALSE
